@@ -1,5 +1,6 @@
 import KonstVerif.Lemmas.LitDecode
 import KonstVerif.Model.ParserMethod
+import KonstVerif.Model.ParserMethodUse
 import KonstVerif.Spec.ParserMethod
 import KonstVerif.Lemmas.Utf8
 /-
@@ -11,9 +12,15 @@ import KonstVerif.Lemmas.Utf8
   `concat!` of them.
   Part (ii): the expanded matching code (Model/ParserMethod) = the property's description
   (Spec/ParserMethod) for every list of alternatives and every remainder.
+  Part (iii): what the expansion does with the caller's PLACE expression, branch bodies and scope
+  (Model/ParserMethodUse): for a place without side effects exactly what a method call on the place does;
+  a place with side effects is evaluated four times (F18a, known finding).  As found, the find forms also
+  captured a body's unlabeled `break` / `continue` (F18b, repaired by 5e6c5eb) and a caller constant / static /
+  unit struct called `bytes`, `rem` or `brem` was not tolerated (F18c, repaired by ff38c77): see
+  Legacy/ParserMethodUse.lean and notes/C18.md.
 -/
 namespace Konst.Props.C18
-open Konst.Lit Konst.Lit.Spec Konst.Lit.Lemmas Konst.PM Konst.PM.Spec
+open Konst.Lit Konst.Lit.Spec Konst.Lit.Lemmas Konst.PM Konst.PM.Spec Konst.PM.Use
 
 /-! ### part (i): literals -/
 
@@ -272,6 +279,39 @@ theorem trim_form_eq_repeat (arms : Arms) (p : PState) :
   rw [trimStart_eq_spec arms _ _ (Nat.lt_succ_self _), trimEnd_eq_spec arms _ _ (Nat.lt_succ_self _)]
   exact ⟨rfl, rfl⟩
 
+/-- since 5e6c5eb the find forms first run a search loop that contains no caller code and then a plain `match` on
+    the bytes it stopped at; that is the same computation as the single fused loop the theorems above speak about -/
+theorem search_then_match (arms : Arms) :
+    (∀ bytes, firstArm matchStart arms (searchLoop arms bytes) = findLoop arms bytes) ∧
+    (∀ fuel bytes, firstArm matchEnd arms (rsearchLoop arms fuel bytes) = rfindLoop arms fuel bytes) := by
+  constructor
+  · intro bytes
+    induction bytes with
+    | nil => rfl
+    | cons b br ih =>
+      simp only [searchLoop, findLoop]
+      cases h : firstArm matchStart arms (b :: br) with
+      | some r => simp only [h]
+      | none => simpa using ih
+  · intro fuel
+    induction fuel with
+    | zero =>
+      intro bytes
+      unfold rsearchLoop rfindLoop
+      cases h : firstArm matchEnd arms bytes with
+      | some r => simp only [h]
+      | none => simp only [h]
+    | succ f ih =>
+      intro bytes
+      unfold rsearchLoop rfindLoop
+      cases h : firstArm matchEnd arms bytes with
+      | some r => simp only [h]
+      | none =>
+        simp only
+        split
+        · simp only [h]
+        · exact ih _
+
 /-- find forms as a whole -/
 theorem find_form_earliest_then_first_listed (arms : Arms) (p : PState) :
     findSkip arms p = (match findSkipSpec arms p.rem with
@@ -281,7 +321,7 @@ theorem find_form_earliest_then_first_listed (arms : Arms) (p : PState) :
                         | some (i, rem) => (some i, setEnd p rem)
                         | none => (none, p)) := by
   unfold findSkip rfindSkip
-  rw [findLoop_eq_spec, rfindLoop_eq_spec]
+  rw [(search_then_match arms).1, (search_then_match arms).2, findLoop_eq_spec, rfindLoop_eq_spec]
   exact ⟨rfl, rfl⟩
 
 /-- `Parser::skip(n)` / `skip_back(n)` at a char boundary within the remainder consume exactly
@@ -330,7 +370,7 @@ theorem default_leaves_parser_unchanged (arms : Arms) (p : PState) :
   refine ⟨?_, (strip_form_eq arms p).2.2.1, (strip_form_eq arms p).2.2.2⟩
   intro h
   unfold findSkip
-  rw [findLoop_eq_spec, h]
+  rw [(search_then_match arms).1, findLoop_eq_spec, h]
 
 /-! ### literals are valid UTF-8, so `Parser::skip` / `skip_back` never round -/
 
@@ -421,7 +461,7 @@ theorem find_skip_exact (arms : Arms) (p : PState) (cs : List Nat)
       | some (i, rem) => (some i, ⟨p.start + (p.rem.length - rem.length), rem⟩)
       | none => (none, p) := by
   unfold findSkip
-  rw [findLoop_eq_spec]
+  rw [(search_then_match arms).1, findLoop_eq_spec]
   cases h : findSkipSpec arms p.rem with
   | none => rfl
   | some r =>
@@ -533,6 +573,232 @@ theorem trim_start_exact (arms : Arms) (p : PState) (cs : List Nat)
     conv => lhs; rw [← hsplit]
     exact List.drop_left' rfl
   exact this
+
+/-! ### part (iii): the place expression, the branch bodies, the caller's scope -/
+
+private theorem matchStart_len {lit bytes rem : List Nat} (h : matchStart lit bytes = some rem) :
+    rem.length ≤ bytes.length := by
+  unfold matchStart at h
+  split at h
+  · cases h; simp only [List.length_drop]; omega
+  · cases h
+
+private theorem matchEnd_len {lit bytes rem : List Nat} (h : matchEnd lit bytes = some rem) :
+    rem.length ≤ bytes.length := by
+  unfold matchEnd at h
+  split at h
+  · cases h; simp only [List.length_take]; omega
+  · cases h
+
+private theorem firstArm_len (m : List Nat → List Nat → Option (List Nat))
+    (hm : ∀ lit bytes rem, m lit bytes = some rem → rem.length ≤ bytes.length) :
+    ∀ (arms : Arms) (bytes : List Nat) (i : Nat) (rem : List Nat),
+      firstArm m arms bytes = some (i, rem) → rem.length ≤ bytes.length := by
+  intro arms
+  induction arms with
+  | nil => intro bytes i rem h; simp [firstArm] at h
+  | cons a r ih =>
+    intro bytes i rem h
+    obtain ⟨j, lit⟩ := a
+    simp only [firstArm] at h
+    cases hml : m lit bytes with
+    | none => rw [hml] at h; exact ih bytes i rem h
+    | some x =>
+      rw [hml] at h
+      simp only [Option.some.injEq, Prod.mk.injEq] at h
+      rw [← h.2]; exact hm lit bytes x hml
+
+private theorem findLoop_len (arms : Arms) : ∀ (bytes : List Nat) (i : Nat) (rem : List Nat),
+    findLoop arms bytes = some (i, rem) → rem.length ≤ bytes.length := by
+  intro bytes
+  induction bytes with
+  | nil => intro i rem h; exact firstArm_len _ (fun _ _ _ => matchStart_len) arms [] i rem (by simpa [findLoop] using h)
+  | cons b br ih =>
+    intro i rem h
+    simp only [findLoop] at h
+    cases hf : firstArm matchStart arms (b :: br) with
+    | some x =>
+      rw [hf] at h
+      simp only [Option.some.injEq] at h
+      subst h
+      exact firstArm_len _ (fun _ _ _ => matchStart_len) arms (b :: br) i rem hf
+    | none =>
+      rw [hf] at h
+      have := ih i rem h
+      simp only [List.length_cons]; omega
+
+private theorem rfindLoop_len (arms : Arms) : ∀ (fuel : Nat) (bytes : List Nat) (i : Nat) (rem : List Nat),
+    rfindLoop arms fuel bytes = some (i, rem) → rem.length ≤ bytes.length := by
+  intro fuel
+  induction fuel with
+  | zero =>
+    intro bytes i rem h
+    unfold rfindLoop at h
+    cases hf : firstArm matchEnd arms bytes with
+    | some x =>
+      rw [hf] at h; simp only [Option.some.injEq] at h; subst h
+      exact firstArm_len _ (fun _ _ _ => matchEnd_len) arms bytes i rem hf
+    | none => rw [hf] at h; cases h
+  | succ f ih =>
+    intro bytes i rem h
+    unfold rfindLoop at h
+    cases hf : firstArm matchEnd arms bytes with
+    | some x =>
+      rw [hf] at h; simp only [Option.some.injEq] at h; subst h
+      exact firstArm_len _ (fun _ _ _ => matchEnd_len) arms bytes i rem hf
+    | none =>
+      rw [hf] at h
+      simp only at h
+      split at h
+      · cases h
+      · have := ih _ i rem h
+        simp only [List.length_dropLast] at this; omega
+
+private theorem trimLoop_len (m : List Nat → List Nat → Option (List Nat))
+    (hm : ∀ lit bytes rem, m lit bytes = some rem → rem.length ≤ bytes.length) (arms : Arms) :
+    ∀ (fuel : Nat) (bytes : List Nat), (trimLoop m arms fuel bytes).length ≤ bytes.length := by
+  intro fuel
+  induction fuel with
+  | zero => intro bytes; simp [trimLoop]
+  | succ f ih =>
+    intro bytes
+    simp only [trimLoop]
+    cases hf : firstArm m arms bytes with
+    | none => simp
+    | some x =>
+      obtain ⟨i, rem⟩ := x
+      simp only
+      have hl := firstArm_len m hm arms bytes i rem hf
+      split
+      · simp
+      · exact Nat.le_trans (ih rem) hl
+
+/-- whatever the form, the `rem` handed to `set` is no longer than the bytes `get` returned: with a place that
+    designates one parser the `usize` subtraction in `set` cannot overflow -/
+theorem matchPart_len (f : Form) (arms : Arms) (bytes : List Nat) (b : Nat) (rem : List Nat)
+    (h : matchPart f arms bytes = some (b, rem)) : rem.length ≤ bytes.length := by
+  cases f with
+  | stripPrefix => exact firstArm_len _ (fun _ _ _ => matchStart_len) arms bytes b rem h
+  | stripSuffix => exact firstArm_len _ (fun _ _ _ => matchEnd_len) arms bytes b rem h
+  | findSkip => exact findLoop_len arms bytes b rem (by rw [← (search_then_match arms).1]; exact h)
+  | rfindSkip => exact rfindLoop_len arms _ bytes b rem (by rw [← (search_then_match arms).2]; exact h)
+  | trimStart =>
+    simp only [matchPart, Option.some.injEq, Prod.mk.injEq] at h
+    rw [← h.2]; exact trimLoop_len _ (fun _ _ _ => matchStart_len) arms _ bytes
+  | trimEnd =>
+    simp only [matchPart, Option.some.injEq, Prod.mk.injEq] at h
+    rw [← h.2]; exact trimLoop_len _ (fun _ _ _ => matchEnd_len) arms _ bytes
+
+/-- `Use.run` (get / match / set spelled out) is the expansion model the theorems of part (ii) are about -/
+theorem run_eq_forms (arms : Arms) (p : PState) :
+    run .stripPrefix arms p = stripPrefix arms p ∧ run .stripSuffix arms p = stripSuffix arms p ∧
+    run .findSkip arms p = findSkip arms p ∧ run .rfindSkip arms p = rfindSkip arms p ∧
+    run .trimStart arms p = (some 0, trimStartMatches arms p) ∧
+    run .trimEnd arms p = (some 0, trimEndMatches arms p) := by
+  have key : ∀ f b rem, matchPart f arms p.rem = some (b, rem) →
+      (setFrom f p p rem).getD p = if f.fromEnd then setEnd p rem else setStart p rem := by
+    intro f b rem h
+    have hl := matchPart_len f arms p.rem b rem h
+    have : ¬ p.rem.length < rem.length := by omega
+    simp only [setFrom, this, if_false, Option.getD_some, setEnd, setStart]
+  refine ⟨?_, ?_, ?_, ?_, ?_, ?_⟩
+  · unfold run stripPrefix
+    cases h : matchPart .stripPrefix arms p.rem with
+    | none => simp only [matchPart] at h; rw [h]
+    | some x => obtain ⟨b, rem⟩ := x; have hk := key _ b rem h; simp only [matchPart] at h; rw [h]; simp only [hk]; rfl
+  · unfold run stripSuffix
+    cases h : matchPart .stripSuffix arms p.rem with
+    | none => simp only [matchPart] at h; rw [h]
+    | some x => obtain ⟨b, rem⟩ := x; have hk := key _ b rem h; simp only [matchPart] at h; rw [h]; simp only [hk]; rfl
+  · unfold run findSkip
+    cases h : matchPart .findSkip arms p.rem with
+    | none => simp only [matchPart] at h; rw [h]
+    | some x => obtain ⟨b, rem⟩ := x; have hk := key _ b rem h; simp only [matchPart] at h; rw [h]; simp only [hk]; rfl
+  · unfold run rfindSkip
+    cases h : matchPart .rfindSkip arms p.rem with
+    | none => simp only [matchPart] at h; rw [h]
+    | some x => obtain ⟨b, rem⟩ := x; have hk := key _ b rem h; simp only [matchPart] at h; rw [h]; simp only [hk]; rfl
+  · unfold run trimStartMatches
+    have h : matchPart .trimStart arms p.rem = some (0, trimLoop matchStart arms (p.rem.length + 1) p.rem) := rfl
+    rw [h]; simp only [key _ _ _ h]; rfl
+  · unfold run trimEndMatches
+    have h : matchPart .trimEnd arms p.rem = some (0, trimLoop matchEnd arms (p.rem.length + 1) p.rem) := rfl
+    rw [h]; simp only [key _ _ _ h]; rfl
+
+/-- A place expression WITHOUT side effects (every evaluation designates parser `i`): the expansion reads and
+    writes only that parser, never panics, and leaves the parsers exactly as a method call on the place evaluated
+    once would (`placeOnce`) — only the number of evaluations differs (4 instead of 1 when a branch matches). -/
+theorem placeRun_of_pure_place (f : Form) (arms : Arms) (ps : List PState) (st : List Nat) (i : Nat)
+    (hst : ∀ k, idxAt st k = i) :
+    placeRun f arms ps st =
+      (match run f arms (ps.getD i default) with
+       | (none, _) => .done none 1 ps
+       | (some b, q) => .done (some b) 4 (ps.set i q)) ∧
+    (∀ b n qs, placeRun f arms ps st = .done b n qs →
+      placeOnce (run f arms) ps st = .done b 1 qs ∨ (b = none ∧ qs = ps)) := by
+  have h1 : placeRun f arms ps st =
+      (match run f arms (ps.getD i default) with
+       | (none, _) => .done none 1 ps
+       | (some b, q) => .done (some b) 4 (ps.set i q)) := by
+    unfold placeRun run
+    simp only [hst]
+    cases h : matchPart f arms (ps.getD i default).rem with
+    | none => rfl
+    | some x =>
+      obtain ⟨b, rem⟩ := x
+      have hl := matchPart_len f arms _ b rem h
+      have : ¬ (ps.getD i default).rem.length < rem.length := by omega
+      simp only [setFrom, this, if_false, Option.getD_some]
+  refine ⟨h1, ?_⟩
+  intro b n qs hd
+  rw [h1] at hd
+  unfold placeOnce
+  simp only [hst]
+  cases hr : run f arms (ps.getD i default) with
+  | mk b' q =>
+    rw [hr] at hd
+    cases b' with
+    | none =>
+      simp only [FxOut.done.injEq] at hd
+      right; exact ⟨hd.1.symm, hd.2.2.symm⟩
+    | some c =>
+      simp only [FxOut.done.injEq] at hd
+      left; simp only [FxOut.done.injEq, true_and]; exact ⟨hd.1, hd.2.2⟩
+
+/-- As found (kernel-checked witness): with `ps[next()]` as the place — successive evaluations designate parsers
+    0, 1, 2, 3 holding "abab", "bcd", "cdefgh", "zzzzzzzz" — `strip_prefix; "a" => ..` matches on parser 0 but
+    advances none of the parsers read: it overwrites parser 3 with parser 1 skipped by |parser 2| − |rem| bytes.
+    A method call on the place evaluates it once and advances parser 0. -/
+theorem placeRun_ne_placeOnce :
+    let arms : Arms := [(0, [97])]
+    let ps : List PState := [⟨0, [97, 98, 97, 98]⟩, ⟨10, [98, 99, 100]⟩, ⟨20, [99, 100, 101, 102, 103, 104]⟩,
+                             ⟨30, [122, 122, 122, 122, 122, 122, 122, 122]⟩]
+    placeRun .stripPrefix arms ps [0, 1, 2, 3]
+        = .done (some 0) 4 [⟨0, [97, 98, 97, 98]⟩, ⟨10, [98, 99, 100]⟩, ⟨20, [99, 100, 101, 102, 103, 104]⟩, ⟨13, []⟩] ∧
+    placeOnce (run .stripPrefix arms) ps [0, 1, 2, 3]
+        = .done (some 0) 1 [⟨1, [98, 97, 98]⟩, ⟨10, [98, 99, 100]⟩, ⟨20, [99, 100, 101, 102, 103, 104]⟩,
+                             ⟨30, [122, 122, 122, 122, 122, 122, 122, 122]⟩] ∧
+    -- and it can panic: |parser 2| < |rem|
+    placeRun .stripPrefix arms [⟨0, [97, 98, 99]⟩, ⟨10, [97]⟩, ⟨20, [97]⟩] [0, 1, 2] = .panic 3 := by
+  decide
+
+/-- no form pastes a branch body inside a loop of its own: control flow written in a body reaches the caller's
+    loops, as in the hand-written chain (as found this failed for the find forms: Legacy.PMUse.bodies_in_hidden_loop_iff) -/
+theorem bodies_never_in_hidden_loop (f : Form) : bodiesInHiddenLoop f = false := by
+  cases f <;> rfl
+
+/-- none of the identifiers the expansion binds is one of the plain names it bound as found: a caller constant /
+    static / unit struct called `bytes`, `rem` or `brem` is tolerated by every form -/
+theorem plain_names_tolerated (f : Form) (kind : String) :
+    callerItemRejects f kind "bytes" = false ∧ callerItemRejects f kind "rem" = false ∧
+    callerItemRejects f kind "brem" = false := by
+  cases f <;> simp [callerItemRejects, itemRejects, binders]
+
+/-- the caller items the expansion cannot coexist with, per form -/
+theorem callerItemRejects_iff (f : Form) (kind name : String) :
+    callerItemRejects f kind name = true ↔
+      (kind = "const" ∨ kind = "static" ∨ kind = "unit") ∧ name ∈ binders f := by
+  simp [callerItemRejects, itemRejects, or_assoc]
 
 -- non-vacuity / sanity (kernel-evaluated)
 private def lit (s : String) : List Nat := s.toUTF8.toList.map (·.toNat)
